@@ -181,6 +181,56 @@ func triePart(w *vc.Writer, r *vc.Rand) {
 			w.Case(vc.L{asts, path}, impl, len(impl.(vc.L)) == 1)
 		}
 	}
+	// named cases: literals that contain a colon, verbs equal to the literal's tail, paths that carry one verb too few or
+	// too many, wildcards that may have consumed a verb.  Every template set is added in both orders.
+	named := []struct {
+		tmpls []string
+		paths []string
+	}{
+		{[]string{"/x:v:v"}, []string{"/x:v", "/x:v:v", "/x", "/x:v:v:v"}},
+		{[]string{"/a/x:v:v", "/a/{n}:v"}, []string{"/a/x:v", "/a/x:v:v", "/a/y:v", "/a/x"}},
+		{[]string{"/a/b:c:c", "/a/b:c"}, []string{"/a/b:c", "/a/b:c:c", "/a/b"}},
+		{[]string{"/a/*:v", "/a/b:v:v"}, []string{"/a/b:v", "/a/b:v:v", "/a/:v", "/a/q:v"}},
+		{[]string{"/a/**:v", "/a/b/c:v:v"}, []string{"/a/b/c:v", "/a/b/c:v:v", "/a/b/c", "/a:v"}},
+		{[]string{"/{n}:a:b", "/{n}:b", "/k:b:b"}, []string{"/foo:a:b", "/k:b", "/k:b:b", "/k:a:b"}},
+		{[]string{"/{n=p/*}:v", "/p/q:v:v"}, []string{"/p/q:v", "/p/q:v:v", "/p/z:v"}},
+		{[]string{"/", "/:v", "/{n}"}, []string{"/", "/:v", "/:v:v", "/x"}},
+	}
+	for _, nc := range named {
+		for order := 0; order < 2; order++ {
+			tm := append([]string{}, nc.tmpls...)
+			if order == 1 {
+				for i, j := 0, len(tm)-1; i < j; i, j = i+1, j-1 {
+					tm[i], tm[j] = tm[j], tm[i]
+				}
+			}
+			trie := httprule.NewTrie()
+			var parsed []*httprule.Template
+			asts := vc.L{}
+			for _, txt := range tm {
+				p, err := httprule.Parse(txt)
+				if err != nil {
+					continue
+				}
+				verb, segs := httprule.VerifDump(p)
+				parsed = append(parsed, p)
+				asts = append(asts, vc.L{segsVal(segs), verb})
+				trie.Add("GET", p)
+			}
+			for _, path := range nc.paths {
+				var impl vc.Val = vc.L{}
+				if got, ok := trie.Find("GET", path); ok {
+					for idx, p := range parsed {
+						if p == got {
+							impl = vc.L{idx}
+							found++
+						}
+					}
+				}
+				w.Case(vc.L{asts, path}, impl, len(impl.(vc.L)) == 1)
+			}
+		}
+	}
 	fmt.Printf("STAT trie \"found=%d\"\n", found)
 }
 
